@@ -1,7 +1,6 @@
 """C16 - send utility: value conservation and signature validity."""
 import hashlib
 import itertools
-from decimal import Decimal
 from fractions import Fraction
 
 from vf import smallcurve
@@ -173,7 +172,8 @@ def build(C, seed, a):
 
 
 def sat(s):
-    return int(Decimal(s) * 100000000)
+    whole, _, frac = str(s).partition(".")        # exact and independent of the decimal context in effect
+    return int(whole) * 100000000 + int((frac + "00000000")[:8])
 
 
 def run_send(C, seed, a):
@@ -182,7 +182,7 @@ def run_send(C, seed, a):
     import bits.tx as btx
     sc = build(C, seed, a)
     total = sum(sat(u["amount"]) for u in sc["utxos"])
-    result = {"success": True, "total_amount": float(Decimal(total) / 100000000),
+    result = {"success": True, "total_amount": float(f"{total // 100000000}.{total % 100000000:08d}"),
               "unspents": [{"txid": u["txid"], "vout": u["vout"], "amount": float(u["amount"]), "scriptPubKey": u["scriptPubKey"],
                             "desc": "x", "height": 1} for u in sc["utxos"]]}
     ans = a.get("answer", "plain")
@@ -331,6 +331,9 @@ def seq_ops(job):
         mn = [2, 3] if sender == "p2sh" else [1, 1]
         for extra in ({}, {"n_utxo": 2, "amt": 3}, {"amt": 5, "vout0": 1, "locktime": 500000}, {"fraction": 0.5, "flag": 0x83}):
             ops.append(("send", {"seed": job["seed"], "curve": cv, "a": dict(base, sender=sender, mn=mn, **extra)}))
+    # amounts with 12-16 significant digits (what a reduced-precision decimal context or a float sum rounds)
+    ops.append(("send", {"seed": job["seed"], "curve": cv, "a": dict(base, sender="p2wpkh", mn=[1, 1], amt=7, n_utxo=2, fraction=0.5)}))
+    ops.append(("send", {"seed": job["seed"], "curve": cv, "a": dict(base, sender="p2sh-p2wpkh", mn=[1, 1], amt=12, n_utxo=3, fraction=0.999)}))
     return ops
 
 
@@ -339,7 +342,7 @@ def jobs(tier, seed):
     js = [{"name": f"small/{sh}", "part": "send", "curve": t, "shard": [sh, 24], "d": 2 if tier == "quick" else 3, "weight": 8} for sh in range(24)]
     js += [{"name": f"secp/{sh}", "part": "send", "shard": [sh, 16], "d": 1 if tier == "quick" else 2, "weight": 10} for sh in range(16)]
     from vf.runner import seq_jobs
-    js += seq_jobs(6, curve=t, weight=5)
+    js += [dict(j, env_decimal=True) for j in seq_jobs(6, curve=t, weight=5)]
     return js
 
 
